@@ -418,6 +418,9 @@ func runC08(c *Ctx) {
 	runC08Wire(c)
 	runC08Migrate(c)
 	runC08Hex(c)
+	runC08NoAlias(c)
+	runC08Packed(c)
+	runC08EnumLookup(c)
 }
 
 func uniq(a, b string) []string {
